@@ -6169,18 +6169,43 @@ let halted w =
           false, false, false, true, false)), (String ((Ascii (false, false,
           true, true, false, false, true, false)), EmptyString))))))))))))))
 
+(** val action_code : action -> n **)
+
+let action_code = function
+| AConnect _ -> N0
+| APublish _ -> Npos XH
+| ASubscribe (_, _) -> Npos (XO XH)
+| AUnsubscribe (_, _) -> Npos (XI XH)
+| ADisconnect _ -> Npos (XO (XO XH))
+| ADrive -> Npos (XI (XO XH))
+| APoll -> Npos (XO (XI XH))
+| ARecv -> Npos (XI (XI XH))
+| AFeed (_, _) -> Npos (XO (XO (XO XH)))
+| AAdvance _ -> Npos (XI (XO (XO XH)))
+| ADropConn -> Npos (XO (XI (XO XH)))
+| AHandleDisconnect -> Npos (XI (XI (XO XH)))
+| ASetBroker _ -> Npos (XO (XO (XI XH)))
+| ASetPid _ -> Npos (XI (XO (XI XH)))
+
 (** val step_action : world -> action -> world **)
 
 let step_action w a =
   if halted w
   then w
-  else let w1 =
-         run_action a
-           (upd_waits
-             (upd_log w
-               (s2t (String ((Ascii (true, true, false, false, false, true,
-                 false, false)), EmptyString)))) N0)
+  else let marker =
+         app
+           (s2t (String ((Ascii (true, true, false, false, false, true,
+             false, false)), EmptyString)))
+           (app (show_N (action_code a))
+             (match a with
+              | AConnect _ -> []
+              | APublish r ->
+                app
+                  (s2t (String ((Ascii (false, true, false, true, true, true,
+                    false, false)), EmptyString))) (show_N (qos_n r.pr_qos))
+              | _ -> []))
        in
+       let w1 = run_action a (upd_waits (upd_log w marker) N0) in
        if halted w1 then w1 else upd_log w1 (show_state w1)
 
 (** val init_world : case -> world **)
